@@ -11,7 +11,7 @@ func init() {
 	reg(&core.Property{
 		ID: "C02", Level: "exploration",
 		Batches: []core.Batch{
-			{Name: "groups", Engine: store.RootHashEngine{}, Quick: 40000, Thorough: 1200000,
+			{Name: "groups", Engine: store.RootHashEngine{}, Quick: 25000, Thorough: 800000,
 				Rule: "a run is non-trivial when it has at least two histories, a non-empty target and at least two generated operations"},
 		},
 		Real:        storeReal,
